@@ -569,19 +569,29 @@ fn case_async(rng: &mut Rng, replay: &str) -> (Verdict, u64) {
             for _ in 0..rng.range(1, 30) {
                 let before = pb.position();
                 let size = rng.range(0, 40) as usize;
-                let (mut sa, mut sb) = (vec![0u8; size], vec![0u8; size]);
+                // the caller's buffer may already hold data (read_exact / read_buf / copy loops poll
+                // again with a partially filled ReadBuf)
+                let pre = if rng.chance(1, 2) { rng.range(1, 12) as usize } else { 0 };
+                let (mut sa, mut sb) = (vec![0u8; size + pre], vec![0u8; size + pre]);
                 let (mut ba, mut bb) = (ReadBuf::new(&mut sa), ReadBuf::new(&mut sb));
-                let ra = Pin::new(&mut bare).poll_read(&mut cx, &mut ba);
-                let rb = Pin::new(&mut wrapped).poll_read(&mut cx, &mut bb);
-                calls += 1;
-                let (fa, fb) = (ba.filled().to_vec(), bb.filled().to_vec());
-                log.push(format!("poll_read({size}) -> {} {} bytes", poll_sig(&rb), fb.len()));
-                if poll_sig(&ra) != poll_sig(&rb) || fa != fb {
-                    differs!(format!("{} {fa:?}", poll_sig(&ra)), format!("{} {fb:?}", poll_sig(&rb)));
-                }
-                let delta = pb.position() - before;
-                if delta != fb.len() as u64 {
-                    return (viol("position-not-bytes-transferred", name, format!("call {calls}: {} bytes filled, position moved by {delta}", fb.len()), w(&log), replay.into()), calls);
+                ba.put_slice(&vec![0xEE; pre]);
+                bb.put_slice(&vec![0xEE; pre]);
+                let mut newly = 0u64;
+                for _ in 0..rng.range(1, 3) {
+                    let had = bb.filled().len();
+                    let ra = Pin::new(&mut bare).poll_read(&mut cx, &mut ba);
+                    let rb = Pin::new(&mut wrapped).poll_read(&mut cx, &mut bb);
+                    calls += 1;
+                    let (fa, fb) = (ba.filled().to_vec(), bb.filled().to_vec());
+                    log.push(format!("poll_read(cap {}, already {had}) -> {} now {} bytes", size + pre, poll_sig(&rb), fb.len()));
+                    if poll_sig(&ra) != poll_sig(&rb) || fa != fb {
+                        differs!(format!("{} {fa:?}", poll_sig(&ra)), format!("{} {fb:?}", poll_sig(&rb)));
+                    }
+                    newly += (fb.len() - had) as u64;
+                    let delta = pb.position() - before;
+                    if delta != newly {
+                        return (viol("position-not-bytes-transferred", name, format!("call {calls}: {newly} bytes were read into a buffer that already held {pre}, position moved by {delta}"), w(&log), replay.into()), calls);
+                    }
                 }
             }
         }
